@@ -74,6 +74,8 @@ pub struct Report {
     pub violations_total: u64,
     pub per_class: BTreeMap<String, u64>,
     pub machinery_errors: Vec<String>,
+    pub marks: Vec<(String, f64)>,
+    pub t0: Instant,
 }
 
 pub const PER_CLASS_CAP: u64 = 8;
@@ -97,7 +99,14 @@ impl Report {
             violations_total: 0,
             per_class: BTreeMap::new(),
             machinery_errors: Vec::new(),
+            marks: Vec::new(),
+            t0: Instant::now(),
         }
+    }
+    /// record the wall time since the report was created under a label (goes into the evidence as phase_times_s)
+    pub fn mark(&mut self, label: &str) {
+        let t = self.t0.elapsed().as_secs_f64();
+        self.marks.push((label.to_string(), (t * 100.0).round() / 100.0));
     }
     pub fn count(&mut self, k: &str, n: u64) {
         *self.counters.entry(k.to_string()).or_insert(0) += n;
@@ -433,6 +442,7 @@ pub fn finish(ctx: &Ctx, mut rep: Report, level_text: &str) -> Outcome {
     cov.insert("known_findings_matched".into(), json!(known_hits));
     cov.insert("machinery_errors".into(), json!(rep.machinery_errors));
     cov.insert("threads".into(), json!(ctx.threads));
+    cov.insert("phase_times_s".into(), json!(rep.marks.iter().map(|(l, t)| json!({"done": l, "at_s": t})).collect::<Vec<_>>()));
     let ev = json!({
         "property_id": id,
         "tier": ctx.tier.name(),
